@@ -8,8 +8,10 @@
 # thorough = the quick rules (C20: plus the whole-module sweep) plus a checker
 # self-test: every stored seeded violation of this property is applied to a
 # scratch worktree of /repo's HEAD (outside /repo and /verif, removed
-# afterwards) and the check must report it. A self-test miss means the checker
-# regressed: exit 2, not a verdict about /repo.
+# afterwards) and the check must report it; every stored behaviour-preserving
+# refactoring written for this property (benign/<id>r/, benign/hand/) is applied
+# the same way and the check must stay silent. A self-test miss or false alarm
+# means the checker regressed: exit 2, not a verdict about /repo.
 set -u
 cd "$(dirname "$0")/.."
 VERIF="$(pwd)"
@@ -59,17 +61,42 @@ for meta in "$VERIF"/seeded/*/meta.json; do
   results=$(python3 -c "import json,sys;r=json.loads(sys.argv[1]);r.append({'seed':sys.argv[2],'status':sys.argv[3]});print(json.dumps(r))" "$results" "$sid" "$st")
   echo "  self-test seed $sid: $st"
 done
+# ---- thorough: behaviour-preserving edits written for this property must leave it silent
+bresults="[]"
+alarm=0
+for d in "$VERIF"/benign/"$PROP"r/*.diff "$VERIF"/benign/hand/*.diff; do
+  [ -f "$d" ] || continue
+  bid="$(basename "$(dirname "$d")")/$(basename "$d" .diff)"
+  wt="$SCR/b_$(echo "$bid" | tr / _)"; out="$SCR/bout_$(echo "$bid" | tr / _)"; mkdir -p "$out"
+  git -C "$REPO" worktree add -q --detach "$wt" HEAD 2>/dev/null || continue
+  if git -C "$wt" apply "$d" 2>/dev/null; then
+    cp "$VERIF/known_findings.json" "$out/" 2>/dev/null
+    "$BIN" -repo "$wt" -verif "$out" -prop "$PROP" -tier quick > "$out/log" 2>&1
+    src=$?
+    if [ $src -eq 0 ]; then st="silent"; else st="FALSE ALARM (exit $src)"; alarm=1; fi
+  else
+    st="skipped: patch does not apply to the current HEAD"
+  fi
+  git -C "$REPO" worktree remove --force "$wt" >/dev/null 2>&1
+  bresults=$(python3 -c "import json,sys;r=json.loads(sys.argv[1]);r.append({'patch':sys.argv[2],'status':sys.argv[3]});print(json.dumps(r))" "$bresults" "$bid" "$st")
+  echo "  self-test benign $bid: $st"
+done
 rm -rf "$SCR"; git -C "$REPO" worktree prune >/dev/null 2>&1
-python3 - "$VERIF/evidence/$PROP.json" "$results" <<'PY'
+python3 - "$VERIF/evidence/$PROP.json" "$results" "$bresults" <<'PY'
 import json,sys
-p,res=sys.argv[1],json.loads(sys.argv[2])
+p,res,bres=sys.argv[1],json.loads(sys.argv[2]),json.loads(sys.argv[3])
 e=json.load(open(p))
 e['coverage']['seeded_selftest']=res
-e['coverage']['explanation']+=" Thorough tier: plus the checker self-test — each stored seeded violation of this property applied to a scratch worktree must be reported."
+e['coverage']['benign_selftest']=bres
+e['coverage']['explanation']+=" Thorough tier: plus the checker self-test in both directions — each stored seeded violation of this property applied to a scratch worktree must be reported, and each stored behaviour-preserving refactoring written for this property must leave the check silent."
 json.dump(e,open(p,'w'),indent=1)
 PY
 if [ $miss -ne 0 ]; then
   echo "BROKEN property=$PROP: the checker no longer reports a stored seeded violation (checker regression, not a verdict about the repository)"
+  exit 2
+fi
+if [ $alarm -ne 0 ]; then
+  echo "BROKEN property=$PROP: the checker raises an alarm on a stored behaviour-preserving refactoring (checker regression, not a verdict about the repository)"
   exit 2
 fi
 exit 0
